@@ -161,6 +161,8 @@ fn threads_child(a: &[String]) -> ! {
             ) == 0
     };
     clock_bound_d::verif::fault::arm(n(0), n(1), n(2));
+    // optional 4th value: hold the dying thread for that many ms between its notice to the main thread and the closing of its mailbox
+    clock_bound_d::verif::fault::set_notify_delay(n(3));
     let t0 = std::time::Instant::now();
     clock_bound_d::thread_manager::run(1000, None);
     println!("returned_ms={} isolated={}", t0.elapsed().as_millis(), isolated);
@@ -230,6 +232,57 @@ fn cmd_unmapcheck(a: &[&str]) -> String {
     }
 }
 
+/// child mode: `replay --wipecrash <path> <limit>`: the process may not grow any file beyond <limit> bytes (RLIMIT_FSIZE, SIGXFSZ
+/// ignored): ShmWriter::new over the unusable file at <path> is cut short inside wipe(), as by a crash at that point.
+fn wipecrash_child(a: &[String]) -> ! {
+    let path = a.get(0).cloned().unwrap_or_default();
+    let limit: u64 = a.get(1).and_then(|x| x.parse().ok()).unwrap_or(12);
+    unsafe {
+        libc::signal(libc::SIGXFSZ, libc::SIG_IGN);
+        let rl = libc::rlimit { rlim_cur: limit, rlim_max: limit };
+        libc::setrlimit(libc::RLIMIT_FSIZE, &rl);
+    }
+    let r = clock_bound_shm::ShmWriter::new(std::path::Path::new(&path));
+    println!("new_ok={}", r.is_ok());
+    std::process::exit(0);
+}
+
+/// wipecrash <hex prior file> <limit>: the daemon's start-up over that file is interrupted after <limit> bytes of wipe(); then:
+/// what do clients get from the file that is left (ShmReader::new, and a first snapshot)?
+fn cmd_wipecrash(a: &[&str]) -> String {
+    let hex = a.get(0).copied().unwrap_or("");
+    let limit = a.get(1).copied().unwrap_or("12");
+    let bytes: Vec<u8> = (0..hex.len() / 2).map(|i| u8::from_str_radix(&hex[2 * i..2 * i + 2], 16).unwrap_or(0)).collect();
+    let path = seg::tmp_path("wc");
+    if std::fs::write(&path, &bytes).is_err() {
+        return "io".into();
+    }
+    let exe = match std::env::current_exe() {
+        Ok(e) => e,
+        Err(_) => return "noexe".into(),
+    };
+    let out = std::process::Command::new(exe).arg("--wipecrash").arg(&path).arg(limit).stdin(std::process::Stdio::null()).output();
+    let child = match out {
+        Ok(o) => String::from_utf8_lossy(&o.stdout).trim().to_string(),
+        Err(_) => "nospawn".into(),
+    };
+    let after = std::fs::read(&path).unwrap_or_default();
+    let cpath = std::ffi::CString::new(path.clone()).unwrap();
+    let opened = catch_unwind(AssertUnwindSafe(|| match clock_bound_shm::ShmReader::new(&cpath) {
+        Ok(mut r) => match r.snapshot() {
+            Ok(c) => {
+                let b: [u8; 56] = unsafe { std::mem::transmute_copy(c) };
+                format!("Ok:record_bound={}", i64::from_ne_bytes(b[32..40].try_into().unwrap()))
+            }
+            Err(e) => format!("Ok:snapshot_err:{:?}", e).replace(' ', "_"),
+        },
+        Err(e) => shm_err_pub(&e),
+    }));
+    let _ = std::fs::remove_file(&path);
+    let hexs: String = after.iter().take(24).map(|b| format!("{:02x}", b)).collect();
+    format!("ok child={} len={} head={} reader={}", child.replace(' ', "_"), after.len(), hexs, opened.unwrap_or_else(|p| format!("panic_{}", panic_msg(&p))).replace(' ', "_"))
+}
+
 /// threads <site> <nth> <mode> [<watchdog ms>]: run the child above; report when (whether) thread_manager::run returned
 fn cmd_threads(a: &[&str]) -> String {
     let wd: u64 = a.get(3).and_then(|x| x.parse().ok()).unwrap_or(10_000);
@@ -240,6 +293,7 @@ fn cmd_threads(a: &[&str]) -> String {
     let mut child = match std::process::Command::new(exe)
         .arg("--threads")
         .args(&a[..a.len().min(3)])
+        .arg(a.get(4).copied().unwrap_or("0"))
         .stdin(std::process::Stdio::null())
         .stdout(std::process::Stdio::piped())
         .stderr(std::process::Stdio::null())
@@ -280,6 +334,9 @@ fn main() {
     if argv.get(1).map(|s| s.as_str()) == Some("--unmapcheck") {
         unmapcheck_child(&argv[2..]);
     }
+    if argv.get(1).map(|s| s.as_str()) == Some("--wipecrash") {
+        wipecrash_child(&argv[2..]);
+    }
     let stdin = std::io::stdin();
     let stdout = std::io::stdout();
     let mut out = stdout.lock();
@@ -299,6 +356,7 @@ fn main() {
             "now" => cmd_now(&ints()),
             "extract" => daemon::cmd_extract(&rest),
             "history" => daemon::cmd_history(&rest),
+            "msgloop" => daemon::cmd_msgloop(&rest),
             "grace" => daemon::cmd_grace(&rest),
             "refid" => daemon::cmd_refid(&rest),
             "poller" => daemon::cmd_poller(&rest),
@@ -318,6 +376,7 @@ fn main() {
             "e2e" => daemon::cmd_e2e(&rest),
             "threads" => cmd_threads(&rest),
             "unmapcheck" => cmd_unmapcheck(&rest),
+            "wipecrash" => cmd_wipecrash(&rest),
             "ping" => "pong".to_string(),
             _ => format!("unknown-command {}", cmd),
         };
